@@ -754,6 +754,13 @@ pub fn gen_iter_c08(tier: &str, rng: &mut Rng, w: &mut dyn Write) {
     // an empty range beside a non-empty one, in both player orders
     emit_iter(w, &IterCase { mode: "digest-nospec", nextra: 2, flop, scope: None, rescope: false, ranges: vec![vec![], vec![(combo_code(0, 4), one)]] });
     emit_iter(w, &IterCase { mode: "digest-nospec", nextra: 2, flop, scope: None, rescope: false, ranges: vec![vec![(combo_code(0, 4), one)], vec![]] });
+    // degenerate pairs (`CardPair::new(c, c)`, reachable through `collect()`): never materialised, never a panic
+    emit_iter(w, &IterCase { mode: "digest-nospec", nextra: 1, flop, scope: Some((0, 1, 0, 6)), rescope: false,
+        ranges: vec![vec![(52 * 4 + 4, one), (combo_code(8, 12), one)], vec![(combo_code(16, 20), one)]] });
+    emit_iter(w, &IterCase { mode: "digest-nospec", nextra: 1, flop, scope: None, rescope: false,
+        ranges: vec![vec![(52 * 7 + 7, one)], vec![(combo_code(16, 20), one)]] });
+    emit_iter(w, &IterCase { mode: "digest-nospec", nextra: 1, flop, scope: Some((0, 1, 2, 9)), rescope: false,
+        ranges: vec![vec![(combo_code(16, 20), one), (52 * 20 + 20, one)], vec![(52 * 3 + 3, one), (combo_code(8, 12), 0x3F000000)]] });
     // longest runs of consecutive blocked deals: a one-combo player holding the first deck card (As) beside wide ranges:
     // while the turn is As every deal of the row is blocked
     let wide: Vec<(usize, u32)> = { let mut v = offsuit_plus(0); v.extend(offsuit_plus(1)); v.extend(offsuit_plus(2)); v.into_iter().map(|c| (c, one)).collect() };
